@@ -2,7 +2,6 @@
 
 from __future__ import annotations
 
-import re
 from typing import TYPE_CHECKING
 from typing import Iterable
 from typing import TextIO
@@ -14,17 +13,14 @@ from liquid2 import TokenStream
 from liquid2 import TokenType
 from liquid2.builtin import parse_primitive
 from liquid2.builtin import parse_string_or_identifier
+from liquid2.builtin.expressions import identifier_as_source
 from liquid2.exceptions import LiquidSyntaxError
 from liquid2.stringify import to_liquid_string
-from liquid2.unescape import quote_string
 
 if TYPE_CHECKING:
     from liquid2 import RenderContext
     from liquid2 import TokenT
     from liquid2.expression import Expression
-
-
-RE_WORD = re.compile(r"[\u0080-\uFFFFa-zA-Z_][\u0080-\uFFFFa-zA-Z0-9_-]*")
 
 
 class CycleNode(Node):
@@ -46,11 +42,7 @@ class CycleNode(Node):
         name = ""
         if self.name is not None:
             # The group name is a string. Quote it unless it is a plain word.
-            name = (
-                f"{self.name}: "
-                if RE_WORD.fullmatch(self.name)
-                else f"{quote_string(self.name)}: "
-            )
+            name = f"{identifier_as_source(self.name)}: "
         items = ", ".join(str(i) for i in self.items)
         return f"{{%{self.token.wc[0]} cycle {name}{items} {self.token.wc[1]}%}}"
 
